@@ -112,13 +112,44 @@ def _lit(n):
     return ('num', 'int', str(n), '') if n >= 0 else ('neg', ('num', 'int', str(-n), ''))
 
 
+def subtrees(t):
+    yield t
+    k = t[0]
+    if k in ('cmp', 'amparg', 'neg'):
+        for x in subtrees(t[1]):
+            yield x
+    elif k == 'call':
+        for a in t[3]:
+            for x in subtrees(a):
+                yield x
+    elif k == 'bin':
+        for a in (t[2], t[3]):
+            for x in subtrees(a):
+                yield x
+
+
+def float_exact(t):
+    """is every intermediate value of the tree a double (or an integer)? Then binary floating point computes the tree
+    exactly and a comparison ON its boundary is decided by the tree, not by rounding"""
+    try:
+        for s in subtrees(t):
+            v = exact(s)
+            if isinstance(v, Fraction) and not isinstance(v, bool):
+                if v.denominator != 1 and Fraction(float(v)) != v:
+                    return False
+                if v.denominator == 1 and abs(v.numerator) >= 2 ** 53:
+                    return False
+    except (Div0, OverflowError, AssertionError):
+        return False
+    return True
+
+
 def equal_twin(rng, t):
     """a tree with the same exact value as t, written differently (an integer as int literal, as n.0, as 2n/2; a
     whole-valued quotient beside the integer it equals): the comparison then sits exactly on its boundary"""
-    try:
-        v = exact(t)
-    except Div0:
+    if not float_exact(t):
         return None
+    v = exact(t)
     if isinstance(v, bool) or not isinstance(v, Fraction):
         return None
     if v.denominator == 1 and abs(v.numerator) < 10 ** 12:
@@ -420,10 +451,27 @@ def impl(c):
     return res
 
 
+def fragile(t):
+    """does the tree hold a comparison whose two sides are (nearly) equal while their values are not all doubles?
+    Binary floating point may then decide the comparison either way (79/67*79*67 is not 6241): the VALUE of such a
+    tree is not judged - its shape still is"""
+    for s in subtrees(t):
+        if s[0] == 'bin' and s[1] in ('=', '<>', '<', '>', '<=', '>='):
+            try:
+                a, b = exact(s[2]), exact(s[3])
+            except Div0:
+                continue
+            if isinstance(a, Fraction) and isinstance(b, Fraction) and not isinstance(a, bool) and not isinstance(b, bool):
+                if abs(a - b) <= Fraction(1, 10 ** 9) * max(1, abs(a), abs(b)) and not float_exact(s):
+                    return True
+    return False
+
+
 def agree(c, impl_ans, model_ans):
     m = fx.parse_sexp(model_ans)
     if not isinstance(m, list) or len(m) != len(impl_ans):
         return False
+    skip_value = c['kind'] == 'tree' and fragile(_fix(c['t']))
     for (f, tree, rec), mm in zip(impl_ans, m):
         mtree, mrec = mm[0], mm[1]
         # (a) tree shape
@@ -431,7 +479,7 @@ def agree(c, impl_ans, model_ans):
             return False
         # (b) evaluation
         r = fx.record_matches(mrec, rec, rel=1e-9)
-        if r is False:
+        if r is False and not skip_value:
             return False
     return True
 
@@ -440,6 +488,8 @@ def oracle(c, impl_ans):
     if c['kind'] != 'tree':
         return None
     t = _fix(c['t'])
+    if fragile(t):
+        return None
     try:
         expected = exact(t)
     except Div0:
